@@ -378,7 +378,7 @@ def r176(prog, chk):
     need(len(st) == 1, f"cannot interpret {cm.short}")
     fs = facts(prog, cm, st[0][0])
     cs = conds(prog, cm, st[0][0])
-    top = any("len(" in T(c.test) and "== 1" in T(c.test) and "FeatureBlock" in T(c.test) and c.polarity is True for c in cs)
+    top = any(o == "eq" and l.startswith("len(") and r == "1" for o, l, r in fs) and any(o == "truthy" and l.startswith("isinstance(") and "FeatureBlock" in l for o, l, r in fs)
     first = any(o == "notin" and l.endswith(".name") for o, l, r in fs)
     wanted = any(o == "in" and l.endswith(".name") and r == cm.params()[2] for o, l, r in fs)
     chk.ob("R17.6", f"{cm.short}|markers count only in top-level feature blocks of wanted tags, first one per tag", top and first and wanted, where(cm, st[0][0]), detail="len(blocks) == 1 and isinstance(blocks[0], FeatureBlock); name in tags and not in result",
